@@ -20,6 +20,8 @@ def act? : Sexp → Option Act
   | .atom "addsel" => some .addSel
   | .list [.atom "setsig", s, h] => do some (.setSig (← nat? s) (← nat? h))
   | .list [.atom "reenter", b] => (bool? b).map .reenter
+  | .list [.atom "fireold", k, v] => do some (.late false (← nat? k) (← nat? v))
+  | .list [.atom "failold", k, e] => do some (.late true (← nat? k) (← nat? e))
   | _ => none
 
 def op? : Sexp → Option Op
@@ -40,6 +42,7 @@ def step? : Sexp → Option Step
       some (.run { timeout := ← nat? t, pre := ← list? (pair? nat? act?) pre, body := ← list? op? body, term := ← term? term })
   | .atom "clear" => some .clearJunk
   | .list [.atom "setsig", s, h] => do some (.setSig (← nat? s) (← nat? h))
+  | .atom "swap" => some .swap
   | _ => none
 
 /-- an optional third element says on which reactor the harness ran the history (`real`); the model is the same -/
@@ -89,6 +92,7 @@ def obs? : Sexp → Option Obs
                    elapsed := ← nat? el })
   | .list [.atom "cleared", j] => (list? junk? j).map .cleared
   | .list [.atom "sigs", l] => (list? nat? l).map .sigs
+  | .atom "swapped" => some .swapped
   | _ => none
 def ofObs : Obs → Sexp
   | .run o => tag "run" [ofRes o.result, ofList (ofPair ofNat ofLbl) o.events, ofList ofRes o.reentries,
@@ -96,6 +100,7 @@ def ofObs : Obs → Sexp
                          ofList ofNat o.sigBefore, ofList ofNat o.sigAfter, ofNat o.elapsed]
   | .cleared j => tag "cleared" [ofList ofJunk j]
   | .sigs l => tag "sigs" [ofList ofNat l]
+  | .swapped => .atom "swapped"
 
 def drv : PropDrv Input Trace :=
   { decI := input?, decT := list? obs?, encT := ofList ofObs, model := model, clauses := Spec.C15.clauses }
